@@ -173,6 +173,24 @@ def check_single(par, full):
     rd = Deb822(text).dump()
     if rd != text:
         bad.append(("deb822/redump", text, rd))
+    if len(par) >= 2:
+        # dump, re-order, dump again: the second dump must re-parse to the paragraph's fields in their new order
+        for how in ("first", "sort"):
+            d = Deb822()
+            for k, v in par:
+                d[k] = v
+            d.dump()
+            if how == "first":
+                d.order_first(par[-1][0])
+            else:
+                d.sort_fields(key=lambda x: [-ord(ch) for ch in x.lower()])
+            n += 1
+            now = list(d.items())
+            got = list(Deb822(d.dump()).items())
+            if sorted(now) != sorted(want) or (how == "first" and now != [want[-1]] + want[:-1]):
+                bad.append(("deb822/reorder/%s/live-order" % how, [want[-1]] + want[:-1], now))
+            elif got != now:
+                bad.append(("deb822/reorder/%s/dump-after-reorder" % how, now, "%r from %r" % (got, d.dump())))
     return bad, n
 
 
